@@ -175,3 +175,46 @@ func VxH_C13_auto_percent() {
 	vx.Assert("table-width-finite", vx.Finite(float64(t.Width.V())))
 	vx.Assert("columns-and-spacing-fill-the-table", vx.ApproxEq(float64(total), float64(t.Width.V())))
 }
+
+// automatic layout squeezed by a narrow container: a spanning cell whose own minimum (its
+// padding) exceeds the minimum of the columns it spans still gets it — no cell has a negative
+// used width and the table is at least as wide as that minimum.
+func VxH_C13_auto_span_min() {
+	src := "<html><head><style>head{display:none} html,body{margin:0}</style></head>" +
+		"<body><section><table><tr><th colspan=2></th></tr><tr><td></td><td></td></tr></table></section></body></html>"
+	doc, err := tree.NewHTML(utils.InputString(src), "", nil, "")
+	if err != nil {
+		panic(err)
+	}
+	rng := func(id string, lo, hi pr.Float) pr.Float {
+		v := pr.Float(vx.F32(id))
+		vx.Assume(vx.And(v >= lo, v <= hi))
+		return v
+	}
+	Wc := rng("container-width", 20, 300)
+	P := rng("spanning-cell-padding", 0, 80)
+	w := rng("column-width", 0, 200)
+	D := func(p pr.KnownProp, v pr.DeclaredValue) tree.VxDecl { return tree.VxDecl{Prop: p, Value: v} }
+	zero := vxPxV(0)
+	sheet := tree.VxSheet(
+		tree.VxRule{Tag: "section", Decls: []tree.VxDecl{D(pr.PDisplay, pr.Display{"block", "flow"}), D(pr.PWidth, vxPxV(Wc))}},
+		tree.VxRule{Tag: "table", Decls: []tree.VxDecl{D(pr.PBorderSpacing, pr.Point{pr.Dimension{Unit: pr.Px}, pr.Dimension{Unit: pr.Px}})}},
+		tree.VxRule{Tag: "th", Decls: []tree.VxDecl{D(pr.PPaddingLeft, vxPxV(P)), D(pr.PPaddingRight, vxPxV(P)), D(pr.PPaddingTop, zero), D(pr.PPaddingBottom, zero), D(pr.PHeight, vxPxV(5))}},
+		tree.VxRule{Tag: "td", Decls: []tree.VxDecl{D(pr.PWidth, vxPxV(w)), D(pr.PPaddingLeft, zero), D(pr.PPaddingRight, zero), D(pr.PPaddingTop, zero), D(pr.PPaddingBottom, zero), D(pr.PHeight, vxPxV(5))}},
+	)
+	if 2*P > 2*w {
+		// the spanning cell needs more than the specified widths of the (constrained) columns it spans
+		vx.Reach("region:span-minimum-above-constrained-columns")
+	}
+	pages := Layout(doc, []tree.CSS{sheet}, false, nil)
+	vx.Reach("laid-out")
+	var tables, cells []Box
+	vxAll(pages[0], func(b Box) bool { return bo.TableT.IsInstance(b) }, &tables)
+	vxAll(pages[0], func(b Box) bool { return bo.TableCellT.IsInstance(b) }, &cells)
+	vx.Assert("structure", len(tables) == 1 && len(cells) == 3)
+	t := tables[0].Box()
+	for i, c := range cells {
+		vx.Assert("cell-width-not-negative:"+string(rune('0'+i)), c.Box().Width.V() >= -1e-3)
+	}
+	vx.Assert("table-at-least-as-wide-as-the-spanning-cell-minimum", float64(t.Width.V()) >= float64(2*P)-1e-2)
+}
